@@ -6,6 +6,7 @@ import (
 
 	"kvassverif/core"
 	_ "kvassverif/cycle"
+	_ "kvassverif/node"
 )
 
 var simArgs []string
